@@ -1,0 +1,184 @@
+//go:build verif
+
+package cmd
+
+import (
+	"context"
+	"log/slog"
+	"net/url"
+	"time"
+
+	"github.com/AdguardTeam/AdGuardDNS/internal/agdcache"
+	"github.com/AdguardTeam/AdGuardDNS/internal/connlimiter"
+	"github.com/AdguardTeam/AdGuardDNS/internal/debugsvc"
+	"github.com/AdguardTeam/AdGuardDNS/internal/dnsmsg"
+	"github.com/AdguardTeam/AdGuardDNS/internal/dnsserver/ratelimit"
+	"github.com/AdguardTeam/AdGuardDNS/internal/errcoll"
+	"github.com/AdguardTeam/AdGuardDNS/internal/metrics"
+	"github.com/AdguardTeam/golibs/logutil/slogutil"
+	"github.com/AdguardTeam/golibs/netutil/urlutil"
+	"github.com/AdguardTeam/golibs/service"
+	"github.com/AdguardTeam/golibs/timeutil"
+	"github.com/prometheus/client_golang/prometheus"
+)
+
+// VerifC20Env is the part of the process environment that the enumerations of
+// the configuration file refer to: the allowlist type selects one of the two
+// rate-limit URLs, the key-value store type of the DNS checker selects the
+// cache size, the Redis settings or the backend URL.
+type VerifC20Env struct {
+	ConsulAllowlistURL  *url.URL
+	BackendRateLimitURL *url.URL
+	DNSCheckRemoteKVURL *url.URL
+
+	// BillStatURL and ProfilesURL are required when a server group has
+	// profiles enabled, as in the distributed example.
+	BillStatURL *url.URL
+	ProfilesURL *url.URL
+
+	RedisAddr string
+
+	RedisIdleTimeout time.Duration
+
+	DNSCheckCacheKVSize int
+	RedisMaxActive      int
+	RedisMaxIdle        int
+}
+
+// verifC20URL converts u.
+func verifC20URL(u *url.URL) (res *urlutil.URL) {
+	if u == nil {
+		return nil
+	}
+
+	return &urlutil.URL{URL: *u}
+}
+
+// toInternal converts e into the environment of the builder.
+func (e *VerifC20Env) toInternal() (envs *environment) {
+	return &environment{
+		ConsulAllowlistURL:  verifC20URL(e.ConsulAllowlistURL),
+		BackendRateLimitURL: verifC20URL(e.BackendRateLimitURL),
+		DNSCheckRemoteKVURL: verifC20URL(e.DNSCheckRemoteKVURL),
+		BillStatURL:         verifC20URL(e.BillStatURL),
+		ProfilesURL:         verifC20URL(e.ProfilesURL),
+		RedisAddr:           e.RedisAddr,
+		RedisKeyPrefix:      "agdns",
+		RedisIdleTimeout:    timeutil.Duration{Duration: e.RedisIdleTimeout},
+		DNSCheckCacheKVSize: e.DNSCheckCacheKVSize,
+		RedisMaxActive:      e.RedisMaxActive,
+		RedisMaxIdle:        e.RedisMaxIdle,
+		RedisPort:           6379,
+	}
+}
+
+// VerifC20EnvValidate runs the checks of the environment that depend on the
+// (already validated) configuration file, the way [Main] does.
+func (v *VerifC20Conf) VerifC20EnvValidate(e *VerifC20Env) (err error) {
+	return e.toInternal().validateFromValidConfig(v.c)
+}
+
+// VerifC20Limits is what the builder makes of the rate-limit section.
+type VerifC20Limits struct {
+	ConnLimit *connlimiter.Limiter
+	RateLimit *ratelimit.Backoff
+}
+
+// verifC20Builder returns a builder over the configuration and environment with
+// a private metrics registry.
+func (v *VerifC20Conf) verifC20Builder(
+	e *VerifC20Env,
+	l *slog.Logger,
+	errColl errcoll.Interface,
+	ns string,
+) (b *builder) {
+	return &builder{
+		baseLogger:     l,
+		cacheManager:   agdcache.NewDefaultManager(),
+		cloner:         dnsmsg.NewCloner(metrics.ClonerStat{}),
+		conf:           v.c,
+		debugRefrs:     debugsvc.Refreshers{},
+		env:            e.toInternal(),
+		errColl:        errColl,
+		logger:         l.With(slogutil.KeyPrefix, "builder"),
+		mtrcNamespace:  ns,
+		promRegisterer: prometheus.NewRegistry(),
+		sigHdlr: service.NewSignalHandler(&service.SignalHandlerConfig{
+			Logger:          l,
+			ShutdownTimeout: shutdownTimeout,
+		}),
+	}
+}
+
+// VerifC20InitDNSCheck runs the builder methods that create the message
+// constructor, the backend metrics and the DNS checker with its key-value
+// store, in the order of [Main].  stage names the method that has failed.
+func (v *VerifC20Conf) VerifC20InitDNSCheck(
+	ctx context.Context,
+	e *VerifC20Env,
+	l *slog.Logger,
+	errColl errcoll.Interface,
+	ns string,
+) (stage string, err error) {
+	b := v.verifC20Builder(e, l, errColl, ns)
+
+	err = b.initMsgConstructor(ctx)
+	if err != nil {
+		return "messages", err
+	}
+
+	err = b.initGRPCMetrics(ctx)
+	if err != nil {
+		return "grpc_metrics", err
+	}
+
+	err = b.initDNSCheck(ctx)
+	if err != nil {
+		return "dnscheck", err
+	}
+
+	return "", nil
+}
+
+// VerifC20InitRateLimiter runs [builder.initRateLimiter], which refreshes the
+// allowlist from the URL the environment names, starts its refresher and
+// creates the connection limiter and the rate limiter.
+func (v *VerifC20Conf) VerifC20InitRateLimiter(
+	ctx context.Context,
+	e *VerifC20Env,
+	l *slog.Logger,
+	errColl errcoll.Interface,
+	ns string,
+) (lims *VerifC20Limits, stage string, err error) {
+	b := v.verifC20Builder(e, l, errColl, ns)
+
+	err = b.initGRPCMetrics(ctx)
+	if err != nil {
+		return nil, "grpc_metrics", err
+	}
+
+	err = b.initRateLimiter(ctx)
+	if err != nil {
+		return nil, "ratelimit", err
+	}
+
+	return &VerifC20Limits{
+		ConnLimit: b.connLimit,
+		RateLimit: b.rateLimit,
+	}, "", nil
+}
+
+// VerifC20InterfaceListeners converts the network and interface-listener
+// sections the way [builder.initBindToDevice] does.  present reports whether a
+// manager has been created.
+func (v *VerifC20Conf) VerifC20InterfaceListeners(l *slog.Logger) (present bool, err error) {
+	b := &builder{
+		baseLogger: l,
+		conf:       v.c,
+		logger:     l.With(slogutil.KeyPrefix, "builder"),
+	}
+
+	err = b.initBindToDevice(context.Background())
+
+	return b.btdManager != nil, err
+}
